@@ -1,5 +1,5 @@
 (* Model/Canon.v -- what the correspondence check compares: canonical values (only what the public API shows:
-   the attributes get_fields() lists, without the Move pseudo-fields), outcomes, and the top-level runners
+   the attributes get_fields() lists, the Move pseudo-fields included: they hold no value), outcomes, and the top-level runners
    that the generated cases files call.  Definitions only. *)
 From Coq Require Import ZArith List Bool Lia.
 From Bisturi Require Import Base.Bytes Kernel.IntCodec Kernel.Align Kernel.BitsK Kernel.DataK Kernel.Frag
@@ -28,7 +28,7 @@ Fixpoint canon (ct : ctab) (v : value) {struct v} : cval :=
       let cs := (fix go (s : list (fname * value)) : list (fname * cval) :=
                    match s with [] => [] | (g, x) :: r => (g, canon ct x) :: go r end) s in
       match ct_get ct c with
-      | Some k => CPkt c (map (fun f => (f, cslot_get cs f)) (filter (fun f => negb (is_shift f)) (field_names k)))
+      | Some k => CPkt c (map (fun f => (f, cslot_get cs f)) (field_names k))
       | None => COther
       end
   | _ => COther
